@@ -50,6 +50,13 @@
     # a read that ends (data, time-out or cancellation) inside a nested fiber, then a second wait of the same task
     [:trw pi tmo inner] (let [t (make-thunk inner chans)]
                           (fn [] (try (ev/read ((pipes pi) 0) 4 nil tmo) ([e] nil)) (t)))
+    # a thread call abandoned at its deadline; the thread is released afterwards and finishes; then a real wait
+    [:tcd inner] (let [t (make-thunk inner chans)]
+                   (fn []
+                     (def tc (ev/thread-chan 1))
+                     (try (ev/with-deadline 0.5 (ev/thread (fn [tc] (ev/take tc)) tc)) ([e] nil))
+                     (ev/give tc 1)
+                     (t)))
     # a bare ev/deadline set inside a nested fiber that ends at once, followed by a real wait of the task
     [:dlc s inner] (let [t (make-thunk inner chans)]
                      (fn [] (resume (coro (ev/deadline s) :done)) (t)))
